@@ -7,6 +7,9 @@
 -/
 import PygModel.PerDict
 import PygProofs.Lemmas.PerDictLemmas
+import PygProofs.Lemmas.PerDictJoin
+import PygProofs.Lemmas.PerDictTotal
+import PygProofs.Lemmas.PerDictRename
 import PygProofs.Props.C02
 
 namespace Pyg.Props.C20
@@ -18,9 +21,10 @@ open Pyg
 `f(...)` itself, after exactly one call of `f` on the given values — whatever `on`, the defaults
 and the expiry are -/
 theorem scalar_passthrough (f : List Cell → Val) (params on : List String)
-    (defaults : List (String × Cell)) (inputs : List (String × Cell)) (e : Cell) (today : Int) :
+    (defaults : List (String × Cell)) (inputs : List (String × Cell)) (e : Cell) (today : Int)
+    (ifNone : Bool) :
     let args := params.map (argOf (inputs ++ [("expiry", e)]))
-    perdictable f params on defaults (inputs.map fun kv => (kv.1, .scalar kv.2)) (.scalar e) today
+    perdictable f params on defaults (inputs.map fun kv => (kv.1, .scalar kv.2)) (.scalar e) today ifNone
       = some (.ok (.value (f args), [args])) := by
   intro args
   have hm : ((inputs.map fun kv => (kv.1, PInput.scalar kv.2)) ++ [("expiry", PInput.scalar e)])
@@ -64,9 +68,9 @@ theorem table_result (f : List Cell → Val) (params on : List String)
         (if (defaults.map (·.1)).contains "expiry" then [] else [("expiry", Cell.none)]))
       = some (.ok ds))
     (hn : ds.nrows ≠ 0) (ht : (inputs ++ [("expiry", expiry)]).any (fun kv => kv.2.isTable) = true)
-    (hon : on ≠ []) (hk : ds.select on = .ok keyCols) :
-    let runs := rowRuns ds (ds.cols.contains "data") today
-    perdictable f params on defaults inputs expiry today = some (.ok (
+    (hon : on ≠ []) (hk : ds.select on = .ok keyCols) (ifNone : Bool) :
+    let runs := rowRuns ifNone ds (ds.cols.contains "data") today
+    perdictable f params on defaults inputs expiry today ifNone = some (.ok (
       .table (keyCols.toV ++ [("data", (List.range ds.nrows).map fun i =>
         if runs i then f (rowArgs ds params i) else .cell (ds.jcellAt "data" i))]),
       ((List.range ds.nrows).filter runs).map (rowArgs ds params))) := by
@@ -76,23 +80,28 @@ theorem table_result (f : List Cell → Val) (params on : List String)
     hon', hk]
   rw [← evalRows_values, ← evalRows_log]
 
-/-- a row is *kept* (not computed) exactly when a previous value column exists and the row's expiry
-is a date strictly before today; `None` or a date from today on means (re)compute -/
-theorem row_kept_iff (ds : Table) (hasData : Bool) (today : Int) (i : Nat)
+/-- a row is *kept* (not computed) exactly when a previous value column exists, the row's expiry
+is a date strictly before today — `None` or a date from today on means (re)compute — and, with
+`if_none = True`, the previous value is not `None` -/
+theorem row_kept_iff (ifNone : Bool) (ds : Table) (hasData : Bool) (today : Int) (i : Nat)
     (hc : ds.jcellAt "expiry" i = .none ∨ ∃ us, ds.jcellAt "expiry" i = .dt us) :
-    rowRuns ds hasData today i = false ↔
-      hasData = true ∧ ∃ us, ds.jcellAt "expiry" i = .dt us ∧ us < today := by
+    rowRuns ifNone ds hasData today i = false ↔
+      hasData = true ∧ (ifNone = true → ds.jcellAt "data" i ≠ .none) ∧
+        ∃ us, ds.jcellAt "expiry" i = .dt us ∧ us < today := by
+  have hnone : (ds.jcellAt "data" i).isNone = false ↔ ds.jcellAt "data" i ≠ .none := by
+    cases ds.jcellAt "data" i <;> simp [Cell.isNone]
   rcases hc with h | ⟨us, h⟩
   · simp [rowRuns, h, runExpiry]
   · simp only [rowRuns, h, runExpiry, Bool.or_eq_false_iff, Bool.not_eq_false',
-      decide_eq_false_iff_not, Int.not_le, Cell.dt.injEq, exists_eq_left']
+      decide_eq_false_iff_not, Int.not_le, Cell.dt.injEq, exists_eq_left', Bool.and_eq_false_imp,
+      hnone, and_assoc]
 
 /-- **calls once**: a computed row contributes exactly one entry to the log, a kept row none -/
-theorem calls_once (f : List Cell → Val) (params : List String) (ds : Table) (hasData : Bool)
-    (today : Int) (n : Nat) :
-    (evalRows f params ds hasData today (List.range n)).2.length =
-      ((List.range n).filter (rowRuns ds hasData today)).length ∧
-    (evalRows f params ds hasData today (List.range n)).1.length = n := by
+theorem calls_once (ifNone : Bool) (f : List Cell → Val) (params : List String) (ds : Table)
+    (hasData : Bool) (today : Int) (n : Nat) :
+    (evalRows ifNone f params ds hasData today (List.range n)).2.length =
+      ((List.range n).filter (rowRuns ifNone ds hasData today)).length ∧
+    (evalRows ifNone f params ds hasData today (List.range n)).1.length = n := by
   rw [evalRows_log, evalRows_values]; simp
 
 /-- no key survives the join: `f` is never called and the supplied `data` (or `None`) is returned -/
@@ -103,8 +112,8 @@ theorem no_rows (f : List Cell → Val) (params on : List String)
       (defaults ++ (if (defaults.map (·.1)).contains "data" then [] else [("data", Cell.none)]) ++
         (if (defaults.map (·.1)).contains "expiry" then [] else [("expiry", Cell.none)]))
       = some (.ok ds))
-    (hn : ds.nrows = 0) :
-    perdictable f params on defaults inputs expiry today =
+    (hn : ds.nrows = 0) (ifNone : Bool) :
+    perdictable f params on defaults inputs expiry today ifNone =
       some (.ok (.noRows ((inputs.find? (·.1 == "data")).map (·.2)), [])) := by
   simp only [perdictable, hj, hn, if_true]
 
@@ -193,24 +202,20 @@ theorem join_output_sorted (inputs : List (String × PInput)) (on : List String)
         have := hemp (k, .table d) hkv
         simp at this
     · split at h
-      · split at h
-        · exact ⟨_, by simpa using h⟩
-        · simp at h
-        · simp at h
-        · simp at h
+      · exact ⟨_, by simpa using h⟩
       · simp at h
       · simp at h
       · simp at h
 
 /-! ## which keys survive: two table inputs -/
 
-/-- **join_keys (two tables)**: `_join_dictable_with_defaults` of two tables is their inner join,
+/-- **two tables, structurally**: `_join_dictable_with_defaults` of two tables is their inner join,
 extended — when the *left* input has defaults — by the rows of the right table whose key the left
 table lacks (with the left defaults filled in), and symmetrically.  Which rows those are is pinned
 down by C02 (`xor_spec`): exactly the rows whose key matches no row of the other table.
-`_partial`: the n-ary fold (`reducer`) and the composition with `_item` are the same step iterated;
-they are modelled (`pdJoin`) and sampled by the correspondence check, not proved as one statement. -/
-theorem join_keys_two_partial (a b d : Table) (da db : List (String × Cell))
+(Formerly `join_keys_two_partial`; the n-ary reduction and the composition with `_item` are now
+proved: `join_keys`.) -/
+theorem joinDef_two_tables (a b d : Table) (da db : List (String × Cell))
     (ka kb ka' kb' : List Val)
     (hne : linter a.cols b.cols ≠ [])
     (hd : a.mul b = some (.ok d))
@@ -290,6 +295,445 @@ theorem mul_is_join (a b d : Table) (h : a.mul b = some (.ok d)) :
   · simp at h
   · simp at h
 
+/-! ## which keys survive, which values they carry: any number of inputs, any subset with defaults -/
+
+/-- **what `_item` keeps of a table input** keyed by all of `on` whose parameter name is not a key
+column (and, like every dictable, distinct column names): a rectangular table with exactly the key
+columns and the column `key`; it has the rows of
+the input — same keys, and under `key` the input's value column (`valueCol`: the column named like
+the parameter, else `data`, else the only non-key column). -/
+theorem item_spec (d t : Table) (key : String) (on : List String) (hd : d.WF)
+    (hdn : d.cols.Nodup) (hon : ∀ c ∈ on, c ∈ d.cols) (hkey : key ∉ on)
+    (h : item d key on = .ok t) :
+    KeyedSrc on t key ∧ RowsAgree on key t.R (inputRows on key d) :=
+  item_rows d t key on hd hdn hon hkey h
+
+/-- what `join(inputs, on, defaults)` returns (`join_keys` proves it for any number of inputs) -/
+structure JoinSpec (inputs : List (String × PInput)) (on : List String)
+    (defaults : List (String × Cell)) (ds : Table) : Prop where
+  /-- rectangular, at least one column -/
+  wf : ds.WF
+  /-- the key columns and one column per input -/
+  cols : ∀ c, c ∈ ds.cols ↔ c ∈ on ∨ (∃ kv ∈ tableInputs inputs, kv.1 = c) ∨
+    ∃ kv ∈ scalarInputs inputs, kv.1 = c
+  /-- a key is present iff every table input without default holds it; when ALL table inputs have a
+  default: iff at least one of them holds it -/
+  keys : ∀ k, ds.R.hasK on k ↔
+    (∀ kv ∈ tableInputs inputs, dfltOf defaults kv.1 = none → kv.2.R.hasK on k) ∧
+    ((∀ kv ∈ tableInputs inputs, (dfltOf defaults kv.1).isSome = true) →
+      ∃ kv ∈ tableInputs inputs, kv.2.R.hasK on k)
+  /-- in every row the column of a table input holds that input's value at a row with this key, or —
+  when it has no such row — its default, which then exists -/
+  values : VOK on ds.R ((tableInputs inputs).map (inputSrc on defaults))
+  /-- scalars broadcast -/
+  scalars : ∀ q, q < ds.nrows → ∀ kv ∈ scalarInputs inputs, ds.jcellAt kv.1 q = kv.2
+  /-- one row per key when no table input repeats a key -/
+  one_per_key : (∀ kv ∈ tableInputs inputs, kv.2.R.uniq on) → ds.R.uniq on
+  /-- rows in non-decreasing order of `dictable.sort`'s key -/
+  sorted : ((List.range ds.nrows).map (sortKey ds on)).Pairwise (fun a b => cmpLe a b = true)
+
+/-- **join_keys — the n-ary `join` with defaults, for ANY number of inputs.**
+Inputs: a dict of scalars and tables (distinct names, none of them a key column), at least one
+table, every table rectangular, with distinct column names (a python dict cannot hold a key twice)
+and keyed by all of `on`; any `defaults`.  Whenever
+`join(inputs, on, defaults)` returns a table `ds`:
+* `ds` is rectangular; its columns are the key columns and one column per input;
+* **keys**: a key is present in `ds` iff it is present in every table input that has no default —
+  and, when ALL table inputs have a default, iff it is present in at least one of them (union);
+* **values** (`VOK`): in every row, the column of a table input holds that input's value at a row
+  with this key, or — when the input has no such row — its default, which then exists;
+* **scalars broadcast**: every row holds each scalar input under its name;
+* **one row per key**: if no table input repeats a key, neither does `ds`;
+* **sorted**: the rows are in non-decreasing order of `dictable.sort`'s key (the dict of the key cells). -/
+theorem join_keys (inputs : List (String × PInput)) (on : List String)
+    (defaults : List (String × Cell)) (ds : Table)
+    (hon : on ≠ []) (hnames : (inputs.map (·.1)).Nodup) (hoff : ∀ kv ∈ inputs, kv.1 ∉ on)
+    (htab : ∀ kv ∈ tableInputs inputs, kv.2.WF ∧ kv.2.cols.Nodup ∧ ∀ c ∈ on, c ∈ kv.2.cols)
+    (hany : tableInputs inputs ≠ [])
+    (h : pdJoin inputs on defaults = some (.ok ds)) : JoinSpec inputs on defaults ds := by
+  obtain ⟨seq, hseq⟩ := pdJoin_stage h
+  obtain ⟨i1, i2, i3⟩ := mapM_item_sem on inputs seq hseq
+  rw [pdJoin_unfold inputs seq on defaults hseq, i1, i2] at h
+  -- names
+  have hTn : ∀ a ∈ tableInputs inputs, a.1 ∈ inputs.map (·.1) := fun a ha =>
+    List.mem_map.2 ⟨_, mem_tableInputs.1 ha, rfl⟩
+  have hToff : ∀ a ∈ tableInputs inputs, a.1 ∉ on := fun a ha =>
+    hoff _ (mem_tableInputs.1 ha)
+  have hSoff : OffKeys on (scalarInputs inputs) := fun b hb => hoff _ (mem_scalarInputs.1 hb)
+  have hdf : ∀ a ∈ tableInputs inputs,
+      dfltOf (defaults.filter fun kv => (inputs.map (·.1)).contains kv.1) a.1 = dfltOf defaults a.1 :=
+    fun a ha => dfltOf_filter_names defaults _ a.1 (hTn a ha)
+  -- the tables after `_item`
+  have hit : ∀ a ∈ tableInputs inputs, KeyedSrc on (itemD a.2 a.1 on) a.1 ∧
+      RowsAgree on a.1 (itemD a.2 a.1 on).R (inputRows on a.1 a.2) := fun a ha =>
+    item_rows a.2 _ a.1 on (htab a ha).1 (htab a ha).2.1 (htab a ha).2.2 (hToff a ha) (i3 a ha)
+  generalize hts : (tableInputs inputs).map (fun a => (a.1, itemD a.2 a.1 on)) = ts at h
+  have hmem : ∀ b ∈ ts, ∃ a ∈ tableInputs inputs, b = (a.1, itemD a.2 a.1 on) := by
+    intro b hb
+    rw [← hts] at hb
+    obtain ⟨a, ha, rfl⟩ := List.mem_map.1 hb
+    exact ⟨a, ha, rfl⟩
+  have hmem' : ∀ a ∈ tableInputs inputs, (a.1, itemD a.2 a.1 on) ∈ ts := by
+    intro a ha
+    rw [← hts]
+    exact List.mem_map.2 ⟨a, ha, rfl⟩
+  have hne : ts.isEmpty = false := by
+    rw [← hts]
+    cases hT : tableInputs inputs with
+    | nil => exact absurd hT hany
+    | cons a as => rfl
+  simp only [hne, Bool.false_eq_true, if_false] at h
+  split at h
+  · rename_i d hj
+    simp only [Option.some.injEq] at h
+    have hks : ∀ b ∈ ts, KeyedSrc on b.2 b.1 := by
+      intro b hb
+      obtain ⟨a, ha, rfl⟩ := hmem b hb
+      exact (hit a ha).1
+    have hnd : (ts.map (·.1)).Nodup := by
+      rw [← hts, List.map_map]
+      exact hnames.sublist (tableInputs_names inputs)
+    obtain ⟨dw, dc, dv, du, dk⟩ := joinTables_sem on hon ts _ d hks hnd hj
+    obtain ⟨sw, sc, sr, ssort⟩ := finish_sem on d ds (scalarInputs inputs) dw h
+    refine ⟨sw, ?_, ?_, ?_, ?_, ?_, ssort⟩
+    · intro c
+      rw [sc c, dc c]
+      constructor
+      · rintro ((h1 | ⟨b, hb, he⟩) | h1)
+        · exact .inl h1
+        · obtain ⟨a, ha, rfl⟩ := hmem b hb
+          exact .inr (.inl ⟨a, ha, he⟩)
+        · exact .inr (.inr h1)
+      · rintro (h1 | ⟨a, ha, he⟩ | h1)
+        · exact .inl (.inl h1)
+        · exact .inl (.inr ⟨_, hmem' a ha, he⟩)
+        · exact .inr h1
+    · intro k
+      rw [sr.hasK hSoff k, dk k]
+      have hK : ∀ a ∈ tableInputs inputs, (itemD a.2 a.1 on).R.hasK on k ↔ a.2.R.hasK on k :=
+        fun a ha => ((hit a ha).2.hasK k).trans (inputRows_hasK on a.1 a.2 (hToff a ha) k)
+      constructor
+      · rintro ⟨h1, h2⟩
+        refine ⟨fun a ha hd => (hK a ha).1 (h1 _ (hmem' a ha) ((hdf a ha).trans hd)), ?_⟩
+        intro hall
+        obtain ⟨b, hb, hbk⟩ := h2 (by
+          intro b hb
+          obtain ⟨a, ha, rfl⟩ := hmem b hb
+          rw [hdf a ha]; exact hall a ha)
+        obtain ⟨a, ha, rfl⟩ := hmem b hb
+        exact ⟨a, ha, (hK a ha).1 hbk⟩
+      · rintro ⟨h1, h2⟩
+        refine ⟨?_, ?_⟩
+        · intro b hb hd
+          obtain ⟨a, ha, rfl⟩ := hmem b hb
+          exact (hK a ha).2 (h1 a ha ((hdf a ha).symm.trans hd))
+        · intro hall
+          obtain ⟨a, ha, hak⟩ := h2 (by
+            intro a ha
+            rw [← hdf a ha]; exact hall (a.1, itemD a.2 a.1 on) (hmem' a ha))
+          exact ⟨_, hmem' a ha, (hK a ha).2 hak⟩
+    · have hv := sr.vok hSoff (S := ts.map (mkSrc _)) (by
+        intro s hs b hb
+        obtain ⟨b', hb', rfl⟩ := mem_map_mkSrc hs
+        obtain ⟨a, ha, rfl⟩ := hmem b' hb'
+        exact table_scalar_names hnames ha hb) dv
+      intro q hq s hs
+      obtain ⟨a, ha, rfl⟩ := List.mem_map.1 hs
+      have := hv q hq (mkSrc _ (a.1, itemD a.2 a.1 on))
+        (List.mem_map.2 ⟨_, hmem' a ha, rfl⟩)
+      have := (hit a ha).2.vrow this
+      simp only [hdf a ha] at this
+      exact this
+    · intro q hq b hb
+      have hn : ((scalarInputs inputs).map (·.1)).Nodup :=
+        hnames.sublist (scalarInputs_names inputs)
+      exact sr.consts q hq b.1 b.2 (dfltOf_of_nodup hn hb)
+    · intro hu
+      apply sr.uniq hSoff
+      apply du
+      intro b hb
+      obtain ⟨a, ha, rfl⟩ := hmem b hb
+      exact (hit a ha).2.uniq (inputRows_uniq on a.1 a.2 (hToff a ha) (hu a ha))
+  · cases h
+  · cases h
+  · cases h
+
+/-- **one row per key**, as a count: when no table input repeats a key, every key that qualifies
+(`JoinSpec.keys`) is carried by exactly one row of the joined table -/
+theorem join_one_row_per_key {inputs : List (String × PInput)} {on : List String}
+    {defaults : List (String × Cell)} {ds : Table} (hs : JoinSpec inputs on defaults ds)
+    (hu : ∀ kv ∈ tableInputs inputs, kv.2.R.uniq on) (k : Row)
+    (h1 : ∀ kv ∈ tableInputs inputs, dfltOf defaults kv.1 = none → kv.2.R.hasK on k)
+    (h2 : (∀ kv ∈ tableInputs inputs, (dfltOf defaults kv.1).isSome = true) →
+      ∃ kv ∈ tableInputs inputs, kv.2.R.hasK on k) :
+    ∃ q, q < ds.nrows ∧ keq on (ds.rowF q) k ∧
+      ∀ q', q' < ds.nrows → keq on (ds.rowF q') k → q' = q := by
+  obtain ⟨q, hq, hk⟩ := (hs.keys k).2 ⟨h1, h2⟩
+  refine ⟨q, hq, hk, fun q' hq' hk' => ?_⟩
+  exact hs.one_per_key hu q' q hq' hq (keq_trans hk' (keq_symm hk))
+
+/-- **the value cells, in table terms**: in row `q` of the joined table, the column of the table
+input `(name, d)` holds `d`'s value column (`valueCol`) at *the* row `j` of `d` carrying the key of
+row `q` (`d` without repeated keys) — and when `d` has no such row, the default of `name`, which
+then exists -/
+theorem join_value_at {inputs : List (String × PInput)} {on : List String}
+    {defaults : List (String × Cell)} {ds : Table} (hs : JoinSpec inputs on defaults ds)
+    (a : String × Table) (ha : a ∈ tableInputs inputs) (hoff : a.1 ∉ on) (q : Nat)
+    (hq : q < ds.nrows) :
+    (∀ j, j < a.2.nrows → keq on (a.2.rowF j) (ds.rowF q) → a.2.R.uniq on →
+      ds.jcellAt a.1 q = a.2.jcellAt (valueCol a.2 a.1 on) j) ∧
+    ((∀ j, j < a.2.nrows → ¬ keq on (a.2.rowF j) (ds.rowF q)) →
+      ∃ v, dfltOf defaults a.1 = some v ∧ ds.jcellAt a.1 q = v) := by
+  have hv := hs.values q hq (inputSrc on defaults a) (List.mem_map.2 ⟨a, ha, rfl⟩)
+  have hag := inputRows_agree on a.1 a.2 hoff
+  constructor
+  · intro j hj hk hu
+    rcases hv with ⟨j', hj', hk', hval⟩ | ⟨hno, _⟩
+    · have hk'' : keq on (a.2.rowF j') (ds.rowF q) := keq_trans (keq_symm (hag j')) hk'
+      have : j' = j := hu j' j hj' hj (keq_trans hk'' (keq_symm hk))
+      subst this
+      have : ds.jcellAt a.1 q = (inputRows on a.1 a.2).row j' a.1 := hval
+      rw [this]
+      simp [inputRows]
+    · exact absurd (keq_trans (hag j) hk) (hno j hj)
+  · intro hno
+    rcases hv with ⟨j', hj', hk', _⟩ | ⟨_, v, hd, hval⟩
+    · exact absurd (keq_trans (keq_symm (hag j')) hk') (hno j' hj')
+    · exact ⟨v, hd, hval⟩
+
+/-- **`_item` returns** when a value column can be chosen: the input has a column named like the
+parameter, or a column `data` that is not a key column, or exactly one non-key column (otherwise the
+code raises KeyError — modelled, `item`) -/
+theorem item_returns (d : Table) (key : String) (on : List String) (hon : ∀ c ∈ on, c ∈ d.cols)
+    (h : key ∈ d.cols ∨ ("data" ∈ d.cols ∧ "data" ∉ on) ∨ ∃ other, lminus d.cols on = [other]) :
+    ∃ t, item d key on = .ok t :=
+  item_total d key on hon h
+
+/-- **`join` returns a table** — never an error, never the model's "not covered" answer — for every
+dict of inputs as in `join_keys` (distinct names that are not key columns, at least one table, every
+table rectangular with distinct column names and keyed by all of `on`) whose `_item` succeeds
+(`item_returns`).  So `join_keys` describes the result of *every* such call. -/
+theorem join_returns (inputs : List (String × PInput)) (on : List String)
+    (defaults : List (String × Cell))
+    (hon : on ≠ []) (hnames : (inputs.map (·.1)).Nodup) (hoff : ∀ kv ∈ inputs, kv.1 ∉ on)
+    (htab : ∀ kv ∈ tableInputs inputs, kv.2.WF ∧ kv.2.cols.Nodup ∧ ∀ c ∈ on, c ∈ kv.2.cols)
+    (hany : tableInputs inputs ≠ [])
+    (hitem : ∀ kv ∈ tableInputs inputs, ∃ t, item kv.2 kv.1 on = .ok t) :
+    ∃ ds, pdJoin inputs on defaults = some (.ok ds) := by
+  obtain ⟨seq, hseq⟩ := mapM_item_total on inputs hitem
+  obtain ⟨i1, i2, i3⟩ := mapM_item_sem on inputs seq hseq
+  rw [pdJoin_unfold inputs seq on defaults hseq, i1, i2]
+  have hToff : ∀ a ∈ tableInputs inputs, a.1 ∉ on := fun a ha =>
+    hoff _ (mem_tableInputs.1 ha)
+  generalize hts : (tableInputs inputs).map (fun a => (a.1, itemD a.2 a.1 on)) = ts
+  have hmem : ∀ b ∈ ts, ∃ a ∈ tableInputs inputs, b = (a.1, itemD a.2 a.1 on) := by
+    intro b hb
+    rw [← hts] at hb
+    obtain ⟨a, ha, rfl⟩ := List.mem_map.1 hb
+    exact ⟨a, ha, rfl⟩
+  have hne : ts ≠ [] := by
+    rw [← hts]
+    cases hT : tableInputs inputs with
+    | nil => exact absurd hT hany
+    | cons a as => simp
+  have hne' : ts.isEmpty = false := by cases ts <;> simp_all
+  have hks : ∀ b ∈ ts, KeyedSrc on b.2 b.1 := by
+    intro b hb
+    obtain ⟨a, ha, rfl⟩ := hmem b hb
+    exact (item_rows a.2 _ a.1 on (htab a ha).1 (htab a ha).2.1 (htab a ha).2.2 (hToff a ha)
+      (i3 a ha)).1
+  have hnd : (ts.map (·.1)).Nodup := by
+    rw [← hts, List.map_map]
+    exact hnames.sublist (tableInputs_names inputs)
+  obtain ⟨d, hd⟩ := joinTables_total on hon ts
+    (defaults.filter fun kv => (inputs.map (·.1)).contains kv.1) hne hks hnd
+  obtain ⟨dw, dc, _⟩ := joinTables_sem on hon ts _ d hks hnd hd
+  obtain ⟨ds, hds⟩ := finish_total on hon d (scalarInputs inputs) dw
+    (fun c hc => (dc c).2 (.inl hc))
+  exact ⟨ds, by simp only [hne', Bool.false_eq_true, if_false, hd, hds]⟩
+
+/-! ## end to end -/
+
+/-- **The property, end to end.**  A function lifted with `perdictable(f, on = keys)` is called with
+keyword arguments `inputs` (distinct names, none of them a key column or `expiry`), at least one of
+them — or `expiry` — a table, every table rectangular with distinct column names and keyed by all of
+`on`; `defaults`
+arbitrary (`data` and `expiry` always get the default `None`).  Whenever the call returns, there is a
+joined table `ds` such that
+* `ds = join(inputs + expiry, on, defaults)` and `ds` satisfies `JoinSpec` (`join_keys`): **one row
+  per key** present in every table input without default (inputs with defaults contribute their
+  default on the keys they lack), **sorted by key**, value columns = each input's value or its
+  default, scalars broadcast;
+* if no key survives, `f` is never called and the supplied `data` (or `None`) is returned;
+* otherwise the result has the key columns of `ds` and, per row, **`f` of that row's values** — or
+  the previous value when the row is protected by a past expiry (`row_kept_iff`; with
+  `if_none = True` a previous value `None` does not protect) — and the log of
+  calls of `f` is exactly the list of the unprotected rows: **each computed exactly once**, in row
+  order, no other call. -/
+theorem perdictable_end_to_end (f : List Cell → Val) (params on : List String)
+    (defaults : List (String × Cell)) (inputs : List (String × PInput)) (expiry : PInput)
+    (today : Int) (res : PResult × List (List Cell))
+    (hon : on ≠ []) (hnames : ((inputs ++ [("expiry", expiry)]).map (·.1)).Nodup)
+    (hoff : ∀ kv ∈ inputs ++ [("expiry", expiry)], kv.1 ∉ on)
+    (htab : ∀ kv ∈ tableInputs (inputs ++ [("expiry", expiry)]),
+      kv.2.WF ∧ kv.2.cols.Nodup ∧ ∀ c ∈ on, c ∈ kv.2.cols)
+    (hany : tableInputs (inputs ++ [("expiry", expiry)]) ≠ [])
+    (ifNone : Bool)
+    (h : perdictable f params on defaults inputs expiry today ifNone = some (.ok res)) :
+    ∃ ds : Table,
+      pdJoin (inputs ++ [("expiry", expiry)]) on
+        (defaults ++ (if (defaults.map (·.1)).contains "data" then [] else [("data", Cell.none)]) ++
+          (if (defaults.map (·.1)).contains "expiry" then [] else [("expiry", Cell.none)]))
+        = some (.ok ds) ∧
+      JoinSpec (inputs ++ [("expiry", expiry)]) on
+        (defaults ++ (if (defaults.map (·.1)).contains "data" then [] else [("data", Cell.none)]) ++
+          (if (defaults.map (·.1)).contains "expiry" then [] else [("expiry", Cell.none)])) ds ∧
+      ((ds.nrows = 0 ∧ res = (.noRows ((inputs.find? (·.1 == "data")).map (·.2)), [])) ∨
+       (ds.nrows ≠ 0 ∧
+        let runs := rowRuns ifNone ds (ds.cols.contains "data") today
+        res = (.table (Table.toV (on.map fun k => (k, (ds.col? k).getD [])) ++
+            [("data", (List.range ds.nrows).map fun i =>
+              if runs i then f (rowArgs ds params i) else .cell (ds.jcellAt "data" i))]),
+          ((List.range ds.nrows).filter runs).map (rowArgs ds params)))) := by
+  cases hj : pdJoin (inputs ++ [("expiry", expiry)]) on
+      (defaults ++ (if (defaults.map (·.1)).contains "data" then [] else [("data", Cell.none)]) ++
+        (if (defaults.map (·.1)).contains "expiry" then [] else [("expiry", Cell.none)])) with
+  | none => simp only [perdictable, hj] at h; cases h
+  | some r =>
+    cases r with
+    | error e => simp only [perdictable, hj] at h; cases h
+    | ok ds =>
+      have hs := join_keys _ on _ ds hon hnames hoff htab hany hj
+      refine ⟨ds, rfl, hs, ?_⟩
+      by_cases hn : ds.nrows = 0
+      · rw [no_rows f params on defaults inputs expiry today ds hj hn ifNone] at h
+        simp only [Option.some.injEq, Except.ok.injEq] at h
+        exact .inl ⟨hn, h.symm⟩
+      · have ht : (inputs ++ [("expiry", expiry)]).any (fun kv => kv.2.isTable) = true := by
+          obtain ⟨a, ha⟩ := List.exists_mem_of_ne_nil _ hany
+          rw [List.any_eq_true]
+          exact ⟨_, mem_tableInputs.1 ha, rfl⟩
+        have hk := select_ok ds on (fun k hk => (hs.cols k).2 (.inl hk))
+        have := table_result f params on defaults inputs expiry today ds _ hj hn ht hon hk ifNone
+        simp only at this
+        rw [this] at h
+        simp only [Option.some.injEq, Except.ok.injEq] at h
+        exact .inr ⟨hn, h.symm⟩
+
+/-- **the lifted call returns** (no error, no uncovered step) for every call as in
+`perdictable_end_to_end` whose tables have distinct column names and a selectable value column — so
+the end-to-end statement describes every such call -/
+theorem perdictable_returns (f : List Cell → Val) (params on : List String)
+    (defaults : List (String × Cell)) (inputs : List (String × PInput)) (expiry : PInput)
+    (today : Int)
+    (hon : on ≠ []) (hnames : ((inputs ++ [("expiry", expiry)]).map (·.1)).Nodup)
+    (hoff : ∀ kv ∈ inputs ++ [("expiry", expiry)], kv.1 ∉ on)
+    (htab : ∀ kv ∈ tableInputs (inputs ++ [("expiry", expiry)]),
+      kv.2.WF ∧ kv.2.cols.Nodup ∧ ∀ c ∈ on, c ∈ kv.2.cols)
+    (hany : tableInputs (inputs ++ [("expiry", expiry)]) ≠ [])
+    (hitem : ∀ kv ∈ tableInputs (inputs ++ [("expiry", expiry)]), ∃ t, item kv.2 kv.1 on = .ok t)
+    (ifNone : Bool) :
+    ∃ res, perdictable f params on defaults inputs expiry today ifNone = some (.ok res) := by
+  obtain ⟨ds, hj⟩ := join_returns (inputs ++ [("expiry", expiry)]) on
+    (defaults ++ (if (defaults.map (·.1)).contains "data" then [] else [("data", Cell.none)]) ++
+      (if (defaults.map (·.1)).contains "expiry" then [] else [("expiry", Cell.none)]))
+    hon hnames hoff htab hany hitem
+  have hs := join_keys _ on _ ds hon hnames hoff htab hany hj
+  by_cases hn : ds.nrows = 0
+  · exact ⟨_, no_rows f params on defaults inputs expiry today ds hj hn ifNone⟩
+  · have ht : (inputs ++ [("expiry", expiry)]).any (fun kv => kv.2.isTable) = true := by
+      obtain ⟨a, ha⟩ := List.exists_mem_of_ne_nil _ hany
+      rw [List.any_eq_true]
+      exact ⟨_, mem_tableInputs.1 ha, rfl⟩
+    have hk := select_ok ds on (fun k hk => (hs.cols k).2 (.inl hk))
+    exact ⟨_, table_result f params on defaults inputs expiry today ds _ hj hn ht hon hk ifNone⟩
+
+/-! ## renames -/
+
+/-- **the renaming assignment** of `_item` (`renames` a dict parameter → column): `d[key] =
+d[renames[key]]` leaves a rectangular table with the same rows and the same cells in every other
+column; when `key` is renamed to `r`, column `r` must exist (else KeyError) and column `key` becomes a
+copy of it — so that `_item` then selects it (`rename_value`) -/
+theorem rename_spec (d d' : Table) (key : String) (renames : List (String × String)) (hd : d.WF)
+    (h : applyRename d key renames = .ok d') :
+    d'.WF ∧ d'.nrows = d.nrows ∧ (∀ c, c ∈ d'.cols ↔ c ∈ d.cols ∨ (c = key ∧ c ∈ d'.cols)) ∧
+    (d.cols.Nodup → d'.cols.Nodup) ∧
+    (∀ c, c ≠ key → ∀ i, d'.jcellAt c i = d.jcellAt c i) ∧
+    (∀ kr, renames.find? (·.1 == key) = some kr →
+      kr.2 ∈ d.cols ∧ key ∈ d'.cols ∧ ∀ i, d'.jcellAt key i = d.jcellAt kr.2 i) ∧
+    (renames.find? (·.1 == key) = none → d' = d) :=
+  applyRename_sem d d' key renames hd h
+
+/-- a renamed parameter takes its values from the column it is renamed to -/
+theorem rename_value (d d' : Table) (key : String) (on : List String)
+    (renames : List (String × String)) (kr : String × String) (hd : d.WF)
+    (h : applyRename d key renames = .ok d') (hkr : renames.find? (·.1 == key) = some kr) :
+    valueCol d' key on = key ∧ ∀ i, (inputRows on key d').row i key = d.jcellAt kr.2 i := by
+  obtain ⟨_, _, _, _, _, h6, _⟩ := applyRename_sem d d' key renames hd h
+  obtain ⟨_, hk, hv⟩ := h6 kr hkr
+  have : valueCol d' key on = key := by simp [valueCol, hk]
+  exact ⟨this, fun i => by simp [inputRows, this, hv i]⟩
+
+/-- **`join` with `renames`**: `join(inputs, on, renames, defaults)` is `join` of the inputs after
+the renaming assignments (`rename_spec`), hence satisfies `JoinSpec` (`join_keys`) for them -/
+theorem join_keys_renames (inputs : List (String × PInput)) (on : List String)
+    (renames : List (String × String)) (defaults : List (String × Cell)) (ds : Table)
+    (hon : on ≠ []) (hnames : (inputs.map (·.1)).Nodup) (hoff : ∀ kv ∈ inputs, kv.1 ∉ on)
+    (htab : ∀ kv ∈ tableInputs inputs, kv.2.WF ∧ kv.2.cols.Nodup ∧ ∀ c ∈ on, c ∈ kv.2.cols)
+    (hany : tableInputs inputs ≠ [])
+    (h : pdJoinR inputs on renames defaults = some (.ok ds)) :
+    (∀ a ∈ tableInputs inputs, applyRename a.2 a.1 renames = .ok (renamedT a.2 a.1 renames)) ∧
+    pdJoin (inputs.map (renamedIn renames)) on defaults = some (.ok ds) ∧
+    JoinSpec (inputs.map (renamedIn renames)) on defaults ds := by
+  simp only [pdJoinR] at h
+  split at h
+  · cases h
+  · rename_i inputs' hm
+    obtain ⟨rfl, i2⟩ := mapM_rename_sem renames inputs inputs' hm
+    refine ⟨i2, h, join_keys _ on defaults ds hon ?_ ?_ ?_ ?_ h⟩
+    · simpa [List.map_map, Function.comp_def, renamedIn_fst] using hnames
+    · intro kv hkv
+      obtain ⟨a, ha, rfl⟩ := List.mem_map.1 hkv
+      rw [renamedIn_fst]; exact hoff a ha
+    · intro kv hkv
+      rw [tableInputs_renamed] at hkv
+      obtain ⟨a, ha, rfl⟩ := List.mem_map.1 hkv
+      obtain ⟨h1, _, h3, h4, _⟩ := applyRename_sem a.2 _ a.1 renames (htab a ha).1 (i2 a ha)
+      exact ⟨h1, h4 (htab a ha).2.1, fun c hc => (h3 c).2 (.inl ((htab a ha).2.2 c hc))⟩
+    · rw [tableInputs_renamed]
+      cases hT : tableInputs inputs with
+      | nil => exact absurd hT hany
+      | cons a as => simp
+
+/-- **the lifted call with `renames`** is the lifted call on the inputs (and `expiry`) after the
+renaming assignments — to which `perdictable_end_to_end` applies -/
+theorem perdictable_renames (f : List Cell → Val) (params on : List String)
+    (renames : List (String × String)) (defaults : List (String × Cell))
+    (inputs : List (String × PInput)) (expiry : PInput) (today : Int)
+    (res : PResult × List (List Cell)) (ifNone : Bool)
+    (h : perdictableR f params on renames defaults inputs expiry today ifNone = some (.ok res)) :
+    (∀ a ∈ tableInputs (inputs ++ [("expiry", expiry)]),
+      applyRename a.2 a.1 renames = .ok (renamedT a.2 a.1 renames)) ∧
+    perdictable f params on defaults (inputs.map (renamedIn renames))
+      (renamedIn renames ("expiry", expiry)).2 today ifNone = some (.ok res) := by
+  simp only [perdictableR] at h
+  split at h
+  · rename_i inputs' e' hm he
+    obtain ⟨rfl, i2⟩ := mapM_rename_sem renames inputs inputs' hm
+    have hm2 : [("expiry", expiry)].mapM (renameInput renames) = .ok [e'] := by
+      simp [List.mapM_cons, he, bind, Except.bind, pure, Except.pure]
+    obtain ⟨j1, j2⟩ := mapM_rename_sem renames _ _ hm2
+    have he' : e' = renamedIn renames ("expiry", expiry) := by simpa using j1
+    refine ⟨?_, by rw [← he']; exact h⟩
+    intro a ha
+    have : a ∈ tableInputs inputs ∨ a ∈ tableInputs [("expiry", expiry)] := by
+      simpa [tableInputs, List.filterMap_append] using ha
+    rcases this with h1 | h1
+    · exact i2 a h1
+    · exact j2 a h1
+  · cases h
+  · cases h
+
 /-! ## non-vacuity and evaluation tests -/
 
 def fEx (args : List Cell) : Val := .tuple (args.map .cell)
@@ -316,10 +760,51 @@ def tB : Table := [("k", [.int 2, .int 3, .int 4]), ("b", [.str "x", .str "y", .
       t == [("k", [.cell (.int 2), .cell (.int 3)]), ("data", [.cell (.str "old2"), .tuple [.cell (.int 30), .cell (.str "y")]])]
   | _ => false)
 
-/-- the hypotheses of `join_keys_two_partial` are satisfiable -/
+/-- the hypotheses of `joinDef_two_tables` are satisfiable -/
 example : linter tA.cols tB.cols ≠ [] ∧
     tA.keysOf ((linter tA.cols tB.cols).map .col) = .ok [.tuple [.cell (.int 3)], .tuple [.cell (.int 1)], .tuple [.cell (.int 2)]] := by
   refine ⟨by decide, rfl⟩
+
+/-- the hypotheses of `join_keys` / `join_returns` / `item_returns` / `perdictable_end_to_end` are
+satisfiable: two tables (one with a default) and a scalar -/
+example : let inputs : List (String × PInput) := [("a", .table tA), ("b", .table tB), ("c", .scalar (.int 7))]
+    ["k"] ≠ [] ∧ (inputs.map (·.1)).Nodup ∧ (∀ kv ∈ inputs, kv.1 ∉ ["k"]) ∧
+    (∀ kv ∈ tableInputs inputs, kv.2.WF ∧ kv.2.cols.Nodup ∧ (∀ c ∈ ["k"], c ∈ kv.2.cols) ∧
+      (kv.1 ∈ kv.2.cols ∨ ("data" ∈ kv.2.cols ∧ "data" ∉ ["k"]) ∨ ∃ other, lminus kv.2.cols ["k"] = [other])) ∧
+    tableInputs inputs ≠ [] := by
+  refine ⟨by decide, by decide, by decide, ?_, by decide⟩
+  intro kv hkv
+  simp only [tableInputs, List.filterMap_cons, List.filterMap_nil, List.mem_cons, List.not_mem_nil,
+    or_false] at hkv
+  rcases hkv with rfl | rfl
+  · exact ⟨⟨by decide, by decide⟩, by decide, by decide, .inl (by decide)⟩
+  · exact ⟨⟨by decide, by decide⟩, by decide, by decide, .inl (by decide)⟩
+
+-- … and `join` returns a table on them: key 1 (only in `a`) survives with b's default, key 4 (only in
+-- `b`, `a` has no default) does not; the scalar is broadcast; rows sorted by key
+#guard (match pdJoin [("a", .table tA), ("b", .table tB), ("c", .scalar (.int 7))] ["k"] [("b", .int 0)] with
+  | some (.ok t) => t.col? "k" == some [.int 1, .int 2, .int 3] && t.col? "a" == some [.int 10, .int 20, .int 30] &&
+      t.col? "b" == some [.int 0, .str "x", .str "y"] && t.col? "c" == some [.int 7, .int 7, .int 7]
+  | _ => false)
+-- all table inputs with defaults: the union of the keys
+#guard (match pdJoin [("a", .table tA), ("b", .table tB)] ["k"] [("a", .none), ("b", .int 0)] with
+  | some (.ok t) => t.col? "k" == some [.int 1, .int 2, .int 3, .int 4]
+  | _ => false)
+
+-- if_none = True: a previous value None (supplied, or the default for a key `data` lacks) is recomputed although its
+-- expiry is in the past; if_none = False keeps it (no call at all here)
+#guard (match perdictable fEx ["a"] ["k"] [] [("a", .table tA),
+      ("data", .table [("k", [.int 1, .int 2]), ("data", [.none, .str "old2"])])] (.scalar (.dt 5)) 10 true,
+    perdictable fEx ["a"] ["k"] [] [("a", .table tA),
+      ("data", .table [("k", [.int 1, .int 2]), ("data", [.none, .str "old2"])])] (.scalar (.dt 5)) 10 false with
+  | some (.ok (_, log1)), some (.ok (_, log2)) =>
+      log1 == [[.int 10], [.int 30]] && log2 == []
+  | _, _ => false)
+-- renames: parameter `a` takes the column `alt` of a table with two value columns
+#guard (match pdJoinR [("a", .table (tA ++ [("alt", [.int 33, .int 11, .int 22])])), ("b", .table tB)] ["k"]
+    [("a", "alt")] [] with
+  | some (.ok t) => t.col? "k" == some [.int 2, .int 3] && t.col? "a" == some [.int 22, .int 33]
+  | _ => false)
 
 /-- the hypotheses of `join_keys_inner` are satisfiable: two inputs keyed by `k` -/
 example : FoldOK ["k"] tA [tB] := ⟨by decide, by decide, by decide, by decide⟩
